@@ -2,6 +2,7 @@ package worlds
 
 import (
 	"fmt"
+	"github.com/rivo/uniseg"
 	"io"
 	"os/exec"
 	"strings"
@@ -671,11 +672,24 @@ func (w *termWorld) drawOnce() bool {
 	w.env.quiesce()
 	// cells outside the host window must be untouched (blank)
 	t := w.env.term
+	snap := w.vt.SimSnapshot()
 	for r := 0; r < t.Rows; r++ {
 		for c := 0; c < t.Cols; c++ {
 			in := r >= w.winRow && r < w.winRow+w.rows && c >= w.winCol && c < w.winCol+w.cols
 			if in {
 				continue
+			}
+			if c == w.winCol-1 && r >= w.winRow && r-w.winRow < len(snap.Cells) && len(snap.Cells[r-w.winRow]) > 0 {
+				// the child put a lone combining character (Extend,
+				// SpacingMark, ZWJ ...) into the first column: a terminal
+				// that clusters graphemes shows it joined to whatever is
+				// to its left. What becomes of such ill-formed text is
+				// terminal behaviour, not a write of Draw
+				if g := snap.Cells[r-w.winRow][0].Grapheme; g != "" {
+					if cl, _, _, _ := uniseg.FirstGraphemeClusterInString("a"+g, -1); len(cl) > 1 {
+						continue
+					}
+				}
 			}
 			cell := t.Cell(r, c)
 			if !cell.Blank() || cell.Style != (simterm.Style{}) {
